@@ -85,6 +85,19 @@ class Fn:
                     out.append((n, "false"))
         return out
 
+    def eq_branches(self, target: str, value_pred: Callable[[ast.expr], bool]) -> list:
+        """CFG branch nodes on which `target == <value satisfying value_pred>` is known to hold: the true branch of an
+        equality test, the false branch of an inequality test (either operand order)."""
+        out = []
+        for n in self.cfg.nodes:
+            e = n.ast
+            if n.kind != "test" or not (isinstance(e, ast.Compare) and len(e.ops) == 1 and isinstance(e.ops[0], (ast.Eq, ast.NotEq, ast.Is, ast.IsNot))):
+                continue
+            l, r = e.left, e.comparators[0]
+            if dotted(l) == target and value_pred(r) or dotted(r) == target and value_pred(l):
+                out.append(self.branch(n, "true" if isinstance(e.ops[0], (ast.Eq, ast.Is)) else "false"))
+        return out
+
     def branch(self, test_node, label: str):
         for lbl, s in test_node.succ:
             if lbl == label:
@@ -184,6 +197,30 @@ def _pairs(target, value):
                 yield from _pairs(t, None)
     else:
         yield target, value
+
+
+def inline_properties(repo: Repo, module: Module, expr: ast.AST, var: str, ci: Optional[ClassInfo], depth: int = 0) -> ast.AST:
+    """`var.p` where p is a @property of class ci whose body is a single `return E`: replaced by E[self := var]."""
+    if ci is None or depth > 4:
+        return expr
+
+    class T(ast.NodeTransformer):
+        def visit_Attribute(self, n):
+            self.generic_visit(n)
+            if isinstance(n.value, ast.Name) and n.value.id == var and ci.is_property(n.attr):
+                fn = ci.methods[n.attr]
+                body = [b for b in fn.body if not (isinstance(b, ast.Expr) and isinstance(b.value, ast.Constant))]
+                if len(body) == 1 and isinstance(body[0], ast.Return) and body[0].value is not None:
+                    e = copy.deepcopy(body[0].value)
+
+                    class S(ast.NodeTransformer):
+                        def visit_Name(self, x):
+                            return ast.Name(id=var, ctx=x.ctx) if x.id == "self" else x
+
+                    return inline_properties(repo, module, S().visit(e), var, ci, depth + 1)
+            return n
+
+    return T().visit(copy.deepcopy(expr))
 
 
 # ----------------------------------------------------------------------------------------------
